@@ -10,11 +10,14 @@ mod c06;
 mod c07;
 mod c08;
 mod c10;
+mod c11;
 mod c09;
+mod c12;
 mod c13;
 mod c14;
 mod c16;
 mod c17;
+mod c18;
 mod e2e;
 
 use std::io::Write;
@@ -76,8 +79,12 @@ fn main() {
         "c08mal" => c08::run_mal(&args),
         "c10" => c10::run(&args), "c10e2e" => c10::run_e2e(&args),
         "c09" => c09::run(&args), "c09e2e" => c09::run_e2e(&args),
+        "c11" => c11::run("c11", &args), "c11x" => c11::run("c11x", &args), "c11fea" => c11::run_file(&args),
         "c16" => c16::run(&args),
         "c17" => c17::run(&args),
+        "c17x" => c17::run_directed(&args),
+        "c18" => c18::run(&args), "c18child" => c18::run_child(&args), "c18e2e" => c18::run_e2e(&args),
+        "c12e2e" => c12::run(&args),
         "c13lex" => c13::run_lex(&args),
         "c13inc" => c13::run_inc(&args),
         "c03e2e" => c03::run("c03e2e", &args),
